@@ -1,8 +1,340 @@
-//! C11 – not implemented yet.
-use mvlib::Ctx;
-use serde_json::Value;
+//! C11 – source map and listings are exact.
+//!
+//! For successful builds the certificate walker (`cert.rs`) knows, for every emitted byte, the
+//! statement that emitted it. (1) the source map must attribute exactly those target address
+//! ranges to spans inside those statements (or inside the invoking statement in listing mode);
+//! (2) the listing text must show, per source line, exactly the bytes emitted for that line in
+//! emission order, each row starting at its address, every byte once, every line once.
 
-pub fn run(_ctx: &Ctx, _replay: Option<&Value>) -> i32 {
-    eprintln!("C11: engine not implemented yet");
-    2
+use crate::cert::{certify, Chunk};
+use crate::probe::{self, Opts};
+use mos_core::io::to_listing;
+use mvlib::grammar::*;
+use mvlib::isa::{Form, Isa};
+use mvlib::{fnv_str, Ctx, Finding};
+use rayon::prelude::*;
+use serde_json::{json, Value};
+use std::collections::HashMap;
+
+fn programs(thorough: bool) -> Vec<(String, Vec<Stmt>)> {
+    let mut out: Vec<(String, Vec<Stmt>)> = vec![];
+    let nop = || imp("nop");
+    out.push(("plain".into(), vec![ins("lda", Form::Imm, num(1)), ins("sta", Form::Plain, hex(0xd020)), label("l"), ins("jmp", Form::Plain, id("l")), imp("rts")]));
+    out.push(("data-long-line".into(), vec![byte((1..=20).map(num).collect()), word(vec![hex(0x1234), hex(0x5678)]), dword(vec![num(1)]), Stmt::Text { encoding: None, value: string("abcdefghijklmnopqrstuvwxyz") }]));
+    out.push(("several-on-blocks".into(), vec![label_block("s", vec![nop(), Stmt::Braces(vec![imp("inx"), ins("bne", Form::Plain, id("-"))]), imp("rts")]), ins("jsr", Form::Plain, id("s"))]));
+    out.push(("pcset-align".into(), vec![Stmt::PcSet(hex(0x1000)), nop(), Stmt::Align(num(8)), label("l"), nop(), Stmt::PcSet(hex(0x1100)), word(vec![id("l")])]));
+    for n in [0i64, 1, 3] {
+        out.push((format!("loop{}", n), vec![nop(), Stmt::Loop { count: num(n), body: vec![ins("lda", Form::Imm, id("index")), Stmt::Braces(vec![imp("dex"), ins("bne", Form::Plain, id("-"))])] }, imp("rts")]));
+    }
+    out.push(("if".into(), vec![Stmt::If { cond: num(1), then: vec![nop()], els: Some(vec![imp("brk")]) }, Stmt::If { cond: num(0), then: vec![nop()], els: Some(vec![imp("brk"), imp("rts")]) }]));
+    for calls in 1..=3 {
+        let mut p = vec![Stmt::MacroDef { name: "m".into(), params: vec!["v".into()], body: vec![ins("lda", Form::Imm, id("v")), ins("sta", Form::Plain, hex(0xd020))] }];
+        for c in 0..calls {
+            p.push(Stmt::MacroCall { name: "m".into(), args: vec![num(c)] });
+            p.push(nop());
+        }
+        out.push((format!("macro-x{}", calls), p));
+    }
+    out.push(("macro-in-loop".into(), vec![
+        Stmt::MacroDef { name: "m".into(), params: vec![], body: vec![imp("inx"), imp("iny")] },
+        Stmt::Loop { count: num(2), body: vec![Stmt::MacroCall { name: "m".into(), args: vec![] }, nop()] },
+    ]));
+    // segments: plain, relocated, adjacent, overlapping target ranges
+    let seg = |name: &str, start: Expr, pc: Option<Expr>| {
+        let mut pairs = vec![("name".to_string(), string(name)), ("start".to_string(), start)];
+        if let Some(p) = pc {
+            pairs.push(("pc".to_string(), p));
+        }
+        Stmt::Define { kind: "segment", pairs }
+    };
+    // (every segment's body has its own bytes, so a listing that shows another segment's bytes is noticed)
+    let body = |l: &str| {
+        let k = l.bytes().last().unwrap_or(b'a') as i64;
+        vec![label(l), ins("lda", Form::Imm, num(k)), ins("jmp", Form::Plain, id(l)), byte(vec![num(k + 1), num(k + 2)])]
+    };
+    out.push(("seg-one".into(), vec![seg("a", hex(0x1000), None), Stmt::Segment { name: string("a"), block: Some(body("la")) }]));
+    out.push(("seg-relocated".into(), vec![seg("a", hex(0x1000), Some(hex(0x8000))), Stmt::Segment { name: string("a"), block: Some(body("la")) }]));
+    out.push(("seg-two".into(), vec![seg("a", hex(0x1000), None), seg("b", hex(0x2000), None), Stmt::Segment { name: string("a"), block: Some(body("la")) }, Stmt::Segment { name: string("b"), block: Some(body("lb")) }]));
+    out.push(("seg-two-relocated".into(), vec![seg("a", hex(0x1000), None), seg("b", hex(0x2000), Some(hex(0x9000))), Stmt::Segment { name: string("a"), block: Some(body("la")) }, Stmt::Segment { name: string("b"), block: Some(body("lb")) }]));
+    out.push(("seg-overlapping-targets".into(), vec![seg("a", hex(0x1000), None), seg("b", hex(0x3000), Some(hex(0x1000))), Stmt::Segment { name: string("a"), block: Some(body("la")) }, Stmt::Segment { name: string("b"), block: Some(body("lb")) }]));
+    out.push(("seg-interleaved".into(), vec![seg("a", hex(0x1000), None), seg("b", hex(0x2000), None), Stmt::Segment { name: string("a"), block: Some(vec![nop()]) }, Stmt::Segment { name: string("b"), block: Some(vec![imp("inx")]) }, Stmt::Segment { name: string("a"), block: Some(vec![imp("iny")]) }]));
+    if thorough {
+        // all pairs of the small bodies in two segments x relocation of either
+        for (i, pa) in [None, Some(hex(0x8000))].iter().enumerate() {
+            for (j, pb) in [None, Some(hex(0x8000)), Some(hex(0x1000))].iter().enumerate() {
+                for sb in [0x1008i64, 0x2000] {
+                    out.push((format!("seg-pair-{}-{}-{:x}", i, j, sb), vec![
+                        seg("a", hex(0x1000), pa.clone()), seg("b", hex(sb), pb.clone()),
+                        Stmt::Segment { name: string("a"), block: Some(body("la")) },
+                        Stmt::Segment { name: string("b"), block: Some(vec![label("lb"), Stmt::Loop { count: num(2), body: vec![ins("ldx", Form::Imm, id("index"))] }, ins("jmp", Form::Plain, id("la"))]) },
+                    ]));
+                }
+            }
+        }
+    }
+    out
+}
+
+fn class_of(name: &str) -> &'static str {
+    if name.contains("overlapping") || name.contains("seg-pair") {
+        "segments-overlap-or-relocated"
+    } else if name.contains("relocated") {
+        "relocated"
+    } else {
+        "plain"
+    }
+}
+
+fn construct_of(s: &Stmt) -> &'static str {
+    match s {
+        Stmt::Instr { .. } => "instr",
+        Stmt::Data { .. } => "data",
+        Stmt::Text { .. } => "text",
+        Stmt::Align(_) => "align",
+        _ => "other",
+    }
+}
+
+fn check(ctx: &Ctx, isa: &Isa, name: &str, prog: &[Stmt], bpl_list: &[usize]) {
+    let r = render(prog);
+    let lay = r.layout(&[]);
+    let text = lay.text.clone();
+    let order = preorder(prog);
+    assert_eq!(order.len(), r.stmts.len());
+    let id_of: HashMap<*const Stmt, usize> = order.iter().enumerate().map(|(i, s)| (*s as *const Stmt, i)).collect();
+    let case = json!({"kind": "c11", "program": name, "files": {"main.asm": text}});
+    // (line, col) extent of a statement: begin of first terminal .. end of last terminal
+    let extent = |sid: usize| -> ((usize, usize), (usize, usize)) {
+        let e = r.stmts[sid];
+        let b = lay.line_col(lay.ranges[e.first].0);
+        let en = lay.line_col(lay.ranges[e.end - 1].1);
+        (b, en)
+    };
+    for move_macro in [false, true] {
+        let opts = Opts { keep_ctx: true, move_macro, ..Default::default() };
+        ctx.eval(|| json!({"program": name, "move_macro": move_macro}));
+        let built = match probe::assemble(&[("main.asm", &text)], &opts) {
+            Ok(b) => b,
+            Err(p) => {
+                ctx.finding(Finding::new(format!("listing:panic:{}", p.site), format!("{} panics: {}", name, p.message), case.clone()));
+                return;
+            }
+        };
+        if !built.ok() {
+            ctx.finding(Finding::new(format!("listing:base-rejected:{}", name), format!("program {} does not assemble: {:?}", name, built.messages()), case.clone()));
+            return;
+        }
+        let cert = certify(isa, &built, prog);
+        if !cert.problems.is_empty() || !cert.unsupported.is_empty() {
+            ctx.count("not_certified");
+            ctx.note(format!("{}: certificate walker could not account for the build: {:?} {:?}", name, cert.problems.first(), cert.unsupported.first()));
+            return;
+        }
+        let chunks: Vec<&Chunk> = cert.chunks.iter().filter(|c| !c.bytes.is_empty()).collect();
+        ctx.nontrivial(fnv_str(&format!("{}{}", name, move_macro)));
+        let cg = built.ctx.as_ref().unwrap();
+        let tree = built.tree.as_ref().unwrap();
+        // ---- (1) source map
+        let mut unmatched: Vec<&Chunk> = chunks.clone();
+        for off in cg.source_map().offsets() {
+            if off.pc.is_empty() {
+                continue;
+            }
+            let sl = tree.code_map.look_up_span(off.span);
+            let (b, e) = ((sl.begin.line, sl.begin.column), (sl.end.line, sl.end.column));
+            // the chunk with this target range whose attributed statement contains the span
+            let pos = unmatched.iter().position(|c| {
+                c.target == off.pc.start && c.target + c.bytes.len() == off.pc.end && {
+                    let owner = if move_macro { c.invocation.unwrap_or(c.stmt) } else { c.stmt };
+                    let (sb, se) = extent(id_of[&owner]);
+                    sb <= b && e <= se
+                }
+            });
+            match pos {
+                Some(p) => {
+                    unmatched.remove(p);
+                }
+                None => {
+                    ctx.finding(Finding::new(
+                        format!("sourcemap:{}:{}:unexpected-entry", class_of(name), if move_macro { "invocation-mode" } else { "definition-mode" }),
+                        format!("{}: source map entry ${:04x}..${:04x} at {}:{}-{}:{} matches no statement that emitted those addresses", name, off.pc.start, off.pc.end, b.0 + 1, b.1 + 1, e.0 + 1, e.1 + 1),
+                        case.clone(),
+                    ));
+                }
+            }
+        }
+        for c in unmatched.iter().take(1) {
+            let s = unsafe { &*c.stmt };
+            ctx.finding(Finding::new(
+                format!("sourcemap:{}:{}:{}:missing-entry", class_of(name), if move_macro { "invocation-mode" } else { "definition-mode" }, construct_of(s)),
+                format!("{}: the {} bytes at target ${:04x} emitted by a {} statement have no source map entry attributed to it", name, c.bytes.len(), c.target, construct_of(s)),
+                case.clone(),
+            ));
+        }
+        if !move_macro {
+            continue;
+        }
+        // ---- (2) listing (as `mos build` produces it: macro entries moved to the invocation)
+        // expected bytes per line in emission order, with their target addresses
+        let n_lines = text.split('\n').count();
+        let mut per_line: Vec<Vec<(usize, u8)>> = vec![vec![]; n_lines];
+        for c in &chunks {
+            let owner = c.invocation.unwrap_or(c.stmt);
+            let sid = id_of[&owner];
+            // the line of the statement's first terminal
+            let line = extent(sid).0 .0;
+            for (k, b) in c.bytes.iter().enumerate() {
+                per_line[line].push((c.target + k, *b));
+            }
+        }
+        for bpl in bpl_list {
+            ctx.eval(|| json!({"program": name, "bytes_per_line": bpl}));
+            let listing = match mvlib::panics::guard(|| to_listing(cg, *bpl)) {
+                Ok(Ok(l)) => l,
+                Ok(Err(_)) => continue,
+                Err(p) => {
+                    ctx.finding(Finding::new(format!("listing:panic:{}", p.site), format!("{}: to_listing({}) panics: {}", name, bpl, p.message), case.clone()));
+                    continue;
+                }
+            };
+            let lst = match listing.iter().find(|(p, _)| p.to_string_lossy().ends_with("main.asm")) {
+                Some((_, t)) => t.clone(),
+                None => {
+                    ctx.finding(Finding::new("listing:no-listing-for-file", format!("{}: no listing for main.asm", name), case.clone()));
+                    continue;
+                }
+            };
+            // parse rows: "{:>5} {:04X}: {bytes}{source}" or "{:>5}       {pad}{source}"
+            let mut got: Vec<Vec<(usize, u8)>> = vec![vec![]; n_lines];
+            let mut line_seq: Vec<usize> = vec![];
+            let mut problems: Vec<String> = vec![];
+            for row in lst.lines() {
+                if row.len() < 5 {
+                    continue;
+                }
+                let ln: usize = match row[..5].trim().parse::<usize>() {
+                    Ok(n) => n - 1,
+                    Err(_) => {
+                        problems.push(format!("row without line number: {:?}", row));
+                        continue;
+                    }
+                };
+                if ln >= n_lines {
+                    problems.push(format!("row for line {} beyond the file", ln + 1));
+                    continue;
+                }
+                if line_seq.last() != Some(&ln) {
+                    line_seq.push(ln);
+                }
+                let rest = &row[5..];
+                if rest.len() >= 6 && rest.as_bytes().get(5) == Some(&b':') {
+                    if let Ok(addr) = usize::from_str_radix(rest[1..5].trim(), 16) {
+                        let bytes_field: String = rest[6..].chars().take(bpl * 3 + 1).collect();
+                        let mut a = addr;
+                        for tok in bytes_field.split_whitespace() {
+                            if tok.len() == 2 {
+                                if let Ok(b) = u8::from_str_radix(tok, 16) {
+                                    got[ln].push((a, b));
+                                    a += 1;
+                                    continue;
+                                }
+                            }
+                            break;
+                        }
+                    }
+                }
+            }
+            // every source line exactly once, in order
+            let expected_seq: Vec<usize> = (0..n_lines).collect();
+            // (a trailing empty line may be trimmed from the listing)
+            let mut seq_ok = line_seq == expected_seq;
+            if !seq_ok && text.ends_with('\n') && line_seq == expected_seq[..n_lines - 1] {
+                seq_ok = true;
+            }
+            if !seq_ok {
+                problems.push(format!("source lines appear as {:?}, expected each of 1..{} once in order", line_seq.iter().map(|l| l + 1).collect::<Vec<_>>(), n_lines));
+            }
+            let mut what = None;
+            for l in 0..n_lines {
+                // the listing records per row only the address of the row's first byte; compare bytes, and
+                // addresses at row starts (got carries consecutive addresses within a row)
+                let gb: Vec<u8> = got[l].iter().map(|x| x.1).collect();
+                let eb: Vec<u8> = per_line[l].iter().map(|x| x.1).collect();
+                if gb != eb {
+                    let kind = if gb.is_empty() { "missing" } else if gb.len() > eb.len() { "duplicated" } else { "misplaced" };
+                    what = Some((kind, format!("line {} shows bytes {} but the statements on that line emitted {}", l + 1, crate::util::hex_bytes(&gb), crate::util::hex_bytes(&eb))));
+                    break;
+                }
+                // row start addresses
+                let mut k = 0;
+                while k < got[l].len() {
+                    if got[l][k].0 != per_line[l][k].0 {
+                        what = Some(("misplaced", format!("line {}: row starting with byte #{} is labelled ${:04x} but that byte is at ${:04x}", l + 1, k, got[l][k].0, per_line[l][k].0)));
+                        break;
+                    }
+                    k += bpl;
+                }
+                if what.is_some() {
+                    break;
+                }
+            }
+            if let Some((kind, w)) = what {
+                ctx.finding(Finding::new(
+                    format!("listing:{}:{}", class_of(name), kind),
+                    format!("{} ({} bytes per line): {}", name, bpl, w),
+                    case.clone(),
+                ));
+            }
+            for p in problems.iter().take(1) {
+                ctx.finding(Finding::new(format!("listing:{}:lines", class_of(name)), format!("{} ({} bytes per line): {}", name, bpl, p), case.clone()));
+            }
+        }
+    }
+}
+
+pub fn run(ctx: &Ctx, replay: Option<&Value>) -> i32 {
+    let isa = Isa::new();
+    if let Some(case) = replay {
+        let text = case["files"]["main.asm"].as_str().unwrap_or("");
+        let opts = Opts { keep_ctx: true, move_macro: true, ..Default::default() };
+        println!("program:\n{}\n---", text);
+        if let Ok(b) = probe::assemble(&[("main.asm", text)], &opts) {
+            if let Some(cg) = &b.ctx {
+                for off in cg.source_map().offsets() {
+                    let sl = b.tree.as_ref().unwrap().code_map.look_up_span(off.span);
+                    println!("source map: ${:04x}..${:04x} <- {}:{}..{}:{}", off.pc.start, off.pc.end, sl.begin.line + 1, sl.begin.column + 1, sl.end.line + 1, sl.end.column + 1);
+                }
+                if let Ok(Ok(l)) = mvlib::panics::guard(|| to_listing(cg, 8)) {
+                    for (p, t) in l {
+                        println!("listing {}:\n{}", p.display(), t);
+                    }
+                }
+            }
+        }
+        return 0;
+    }
+    let thorough = ctx.tier.is_thorough();
+    let mut progs = programs(thorough);
+    // every assembling statement sequence of the C02 alphabet (length <= 2 quick / 3 thorough)
+    for (i, p) in crate::props::c02::family_a_programs(if thorough { 3 } else { 2 }).into_iter().enumerate() {
+        let text = program_text(&p);
+        if let Ok(b) = probe::asm(&text) {
+            if b.ok() {
+                progs.push((format!("c02-family-a-{}", i), p));
+            }
+        }
+    }
+    ctx.set("programs", json!(progs.len()));
+    let bpl: Vec<usize> = if thorough { (1..=16).collect() } else { vec![1, 8, 16] };
+    progs.par_iter().for_each(|(name, prog)| check(ctx, &isa, name, prog, &bpl));
+    ctx.finish(
+        "exploration",
+        "programs with every emitting statement kind, a line emitting more than 16 bytes, nested scopes, pc assignments and .align, loops (0/1/3 iterations), conditionals, a macro invoked 1-3 times and inside a loop, 1-2 segments plain / relocated / interleaved / with overlapping target ranges (all relocation pairs in thorough) x macro attribution mode x bytes-per-line 1..16 (quick 1, 8, 16). The certificate walker gives the emitting statement of every byte; the source map must attribute exactly those target ranges to spans inside those statements, and the listing must show per source line exactly those bytes in emission order with correct row addresses, every line once. non-trivial = certified successful build x attribution mode",
+        true,
+        &[
+            "imports are not covered (the certificate walker does not model them)",
+            "contiguity of the non-first bytes of a listing row is not demanded (a row only carries its first address)",
+            "statement extents come from the harness renderer (one statement per line)",
+        ],
+    )
 }
